@@ -275,8 +275,8 @@ class CG:
             self.func_ids[ft] = cid
             # typedef emitted later (needs param types registered first)
             ret = self.ctype(ft[1]); ps = [self.ctype(p) for p in ft[2]]
-            if ft[3]: ps.append('...')
-            if not ps: ps = ['void']
+            if ft[3] and ps: ps.append('...')
+            if not ps: ps = [] if ft[3] else ['void']
             self.out_types.append(('typedef', 'typedef %s (*%s)(%s);' % (ret, cid, ', '.join(ps))))
         return self.func_ids[ft]
     def flush_type_defs(self):
@@ -302,9 +302,9 @@ class CG:
         return []
     def emit_types(self):
         self.flush_type_defs()
-        lines = []
+        lines = []; fwd = []
         for kind, x in self.out_types:
-            if kind == 'fwd': lines.append('%s;' % x)
+            if kind == 'fwd': fwd.append('%s;' % x)
         emitted = set(); order = []
         defs = self._all_defs
         def visit(cid, stack=()):
@@ -329,7 +329,7 @@ class CG:
                 lines.append('%s { %s }%s;' % (cid, fs, ' __attribute__((packed))' if d[2] else ''))
         # typedefs for function pointer types come after forward decls of structs (pointers only need fwd)
         tds = [x for kind, x in self.out_types if kind == 'typedef']
-        return lines, tds
+        return fwd, tds, lines
 
 # ----------------------------------------------------------------------------- module parsing
 LINKAGE = {'private','internal','available_externally','linkonce','weak','common','appending','extern_weak',
@@ -457,7 +457,10 @@ def cstr_bytes(tok):
     raw = tok[2:-1]; bs = []; i = 0
     while i < len(raw):
         if raw[i] == '\\':
-            bs.append(int(raw[i+1:i+3], 16)); i += 3
+            if raw[i+1] == '\\':
+                bs.append(92); i += 2
+            else:
+                bs.append(int(raw[i+1:i+3], 16)); i += 3
         else:
             bs.append(ord(raw[i])); i += 1
     return bs
@@ -486,6 +489,7 @@ class FnGen:
         self.vtypes = {}   # local ir name -> type
         self.refs = set()  # referenced globals/functions
         self.tmpc = 0
+        self.defs = {}     # local ir name -> defining instruction tokens
     def lname(self, v):
         if v in self.lnames: return self.lnames[v]
         c = 'v' + re.sub(r'[^A-Za-z0-9_]', '_', v[1:].strip('"'))
@@ -869,6 +873,7 @@ class Gen:
         d = None
         if p.peek()[0] == 'local' and p.peek(1)[1] == '=':
             d = p.next()[1]; p.next()
+            fg.defs[d] = toks
         k, op = p.next()
         if op == 'tail' or op == 'musttail' or op == 'notail':
             k, op = p.next()
@@ -1119,11 +1124,11 @@ class Gen:
             va_sig = (tuple(ps), va)
         # callee
         k, v = p.peek()
-        callee_name = None
+        callee_name = None; callee_local = None
         if k == 'glob':
             p.next(); callee_name = v[1:].strip('"')
         elif k == 'local':
-            p.next(); callee_expr = fg.lname(v)
+            p.next(); callee_expr = fg.lname(v); callee_local = v
         elif k == 'ident' and v in ('bitcast', 'inttoptr', 'getelementptr', 'select'):
             # constant-expression callee; need its type: function pointer type unknown here -> parse generically
             p.next()
@@ -1183,8 +1188,28 @@ class Gen:
             argexprs = self.byval_args(fg, args, code)
             fty = ('func', rt, tuple(t for _, t, _ in args), False)
             if va_sig is not None: fty = ('func', rt, va_sig[0], va_sig[1])
-            call = '((%s)%s)(%s)' % (cg.functype_name(fty), callee_expr, ', '.join(argexprs))
-            result = ('expr', call)
+            cands = self.indirect_candidates(fg, callee_local, fty) if callee_local else None
+            if cands is None or self.opts.no_devirt:
+                call = '((%s)%s)(%s)' % (cg.functype_name(fty), callee_expr, ', '.join(argexprs))
+                result = ('expr', call)
+            else:
+                dn = None
+                if d is not None and rt != VOID:
+                    dn = fg.lname(d); fg.decls[dn] = cg.ctype(rt); fg.vtypes[d] = rt
+                stmt = ''
+                for cn in cands:
+                    fdef = self.mod.funcs[cn]
+                    self.note_ref(cn, fg)
+                    cargs = []
+                    for ae, (pt, _, _), (_, at, _) in zip(argexprs, fdef['params'], args):
+                        cargs.append(ae if pt == at else '((%s)%s)' % (cg.ctype(pt), ae))
+                    call = '%s(%s)' % (cg.gname(cn), ', '.join(cargs))
+                    if dn is not None:
+                        call = '%s = %s' % (dn, call if fdef['ret'] == rt else '((%s)%s)' % (cg.ctype(rt), call))
+                    stmt += 'if ((void*)%s == (void*)&%s) { %s; } else ' % (callee_expr, cg.gname(cn), call)
+                stmt += '{ VERIF_CHECK(0, "indirect call target outside the candidate set (ir2c devirtualisation)"); VERIF_ASSUME(0); }'
+                code.append(stmt)
+                result = ('stmt', None)
         kind, ex = result
         if kind == 'expr':
             if d is not None and rt != VOID:
@@ -1196,6 +1221,155 @@ class Gen:
         if is_invoke:
             code.append(self.edge(fg, bn, normal))
 
+    def compat(self, a, b):
+        if a == b: return True
+        if a[0] == 'ptr' and b[0] == 'ptr': return True
+        return False
+    def sig_compat(self, fdef, fty):
+        if fdef['vararg'] or len(fdef['params']) != len(fty[2]): return False
+        if not (self.compat(fdef['ret'], fty[1])): return False
+        return all(self.compat(pt, at) for (pt, _, _), at in zip(fdef['params'], fty[2]))
+    def contains_struct(self, a, b, depth=0):
+        """struct type a is b or has b among its (transitive) by-value members"""
+        if a == b: return True
+        if depth > 12: return False
+        if a[0] == 'struct':
+            ent = self.mod.structs.get(a[1])
+            if not ent or ent[0] is None: return False
+            return any(self.contains_struct(f, b, depth + 1) for f in ent[0])
+        if a[0] == 'lstruct': return any(self.contains_struct(f, b, depth + 1) for f in a[1])
+        if a[0] == 'array': return self.contains_struct(a[2], b, depth + 1)
+        return False
+    def this_compat(self, fdef, fty):
+        """virtual call through static type T can only reach methods of classes that contain T as a base subobject"""
+        if not fty[2] or not fdef['params']: return True
+        st = fty[2][0]; ct = fdef['params'][0][0]
+        if st[0] != 'ptr' or ct[0] != 'ptr': return True
+        if st[1][0] != 'struct' or ct[1][0] != 'struct': return True
+        return self.contains_struct(ct[1], st[1])
+    def vtable_slots(self):
+        """list of vtable arrays: each a list of function names / None, from _ZTV* globals"""
+        if hasattr(self, '_vt'): return self._vt
+        vt = []
+        for name, g in self.mod.globals.items():
+            if not name.startswith('_ZTV') or g['init'] is None: continue
+            toks, i = g['init']
+            # split into arrays at '[' ... ']' of the initialiser (after the type)
+            cur = None; depth = 0
+            j = i
+            while j < len(toks):
+                k, v = toks[j]
+                if k == 'punct' and v == '[':
+                    # could be a type "[5 x i8*]" or a value list; value list follows a type
+                    # detect value list: next token is a type keyword 'i8' followed by '*'
+                    if toks[j+1][1] == 'i8' and toks[j+2][1] == '*':
+                        cur = []; j += 1
+                        # parse entries separated by top-level commas until matching ']'
+                        d2 = 0; ent = []
+                        while True:
+                            k2, v2 = toks[j]
+                            if k2 == 'punct' and v2 in '([': d2 += 1
+                            if k2 == 'punct' and v2 in ')]':
+                                if d2 == 0: break
+                                d2 -= 1
+                            if k2 == 'punct' and v2 == ',' and d2 == 0:
+                                cur.append(ent); ent = []
+                            else:
+                                ent.append(toks[j])
+                            j += 1
+                        cur.append(ent)
+                        arr = []
+                        for ent in cur:
+                            fn = None
+                            for k3, v3 in ent:
+                                if k3 == 'glob' and v3[1:].strip('"') in self.mod.funcs:
+                                    fn = v3[1:].strip('"')
+                            arr.append(fn)
+                        vt.append((name, arr))
+                j += 1
+        self._vt = vt
+        return vt
+    def address_taken(self):
+        if hasattr(self, '_at'): return self._at
+        at = set()
+        gref = re.compile(r'@(?:"[^"]*"|[-a-zA-Z$._0-9]+)')
+        for n in self.live:
+            if n in self.mod.funcs:
+                f = self.mod.funcs[n]
+                if f['body'] is None or n in self.overrides: continue
+                for l in f['body']:
+                    if '@' not in l: continue
+                    refs = gref.findall(l)
+                    m = re.match(r'\s*(?:%\S+ = )?(?:tail |musttail |notail )?(?:call|invoke) [^@]*?(@(?:"[^"]*"|[-a-zA-Z$._0-9]+))\(', l)
+                    skip = m.group(1) if m else None
+                    for r in refs:
+                        if r == skip:
+                            skip = None; continue
+                        nm = r[1:].strip('"')
+                        if nm in self.mod.funcs: at.add(nm)
+            elif n in self.mod.globals:
+                g = self.mod.globals[n]
+                if g['init'] is not None:
+                    toks, i = g['init']
+                    for k, v in toks[i:]:
+                        if k == 'glob' and v[1:].strip('"') in self.mod.funcs: at.add(v[1:].strip('"'))
+        self._at = at
+        return at
+    def indirect_candidates(self, fg, callee_local, fty):
+        """candidate targets of an indirect call. virtual-call pattern -> functions in that vtable slot;
+        otherwise every address-taken function with a compatible signature. Completeness is asserted at
+        the call site (unknown target = assertion failure), so a too-small set is never silent."""
+        def pdef(name):
+            """-> ('load', ptr_local, pointee_type) | ('gep', base_local, [const idx...]) | ('bitcast', src_local) | None"""
+            tk = fg.defs.get(name)
+            if not tk: return None
+            p = P(tk, self.mod); p.next(); p.next()
+            op = p.next()[1]
+            try:
+                if op == 'load':
+                    p.accept('atomic'); p.accept('volatile')
+                    t = p.parse_type(); p.expect(','); pt = p.parse_type()
+                    k, v = p.next()
+                    return ('load', v if k == 'local' else None, t)
+                if op == 'getelementptr':
+                    p.accept('inbounds')
+                    bt = p.parse_type(); p.expect(','); pt = p.parse_type()
+                    k, v = p.next()
+                    idx = []
+                    while p.accept(','):
+                        if p.peek()[0] == 'md': break
+                        it = p.parse_type(); k2, v2 = p.next()
+                        idx.append(int(v2) if k2 == 'num' else None)
+                    return ('gep', v if k == 'local' else None, idx)
+                if op == 'bitcast':
+                    ft = p.parse_type(); k, v = p.next()
+                    return ('bitcast', v if k == 'local' else None)
+            except IRError:
+                return None
+            return None
+        slot = None
+        d0 = pdef(callee_local)
+        if d0 and d0[0] == 'load' and d0[1]:
+            d1 = pdef(d0[1])
+            if d1 and d1[0] == 'gep' and d1[1] and len(d1[2]) == 1 and d1[2][0] is not None:
+                d2 = pdef(d1[1])
+                if d2 and d2[0] == 'load': slot = d1[2][0]
+            elif d1 and d1[0] == 'load' and d1[2][0] == 'ptr' and d1[2][1][0] == 'ptr' and d1[2][1][1][0] == 'func':
+                slot = 0
+        cands = []
+        if slot is not None:
+            for vname, arr in self.vtable_slots():
+                if vname not in self.live: continue
+                idx = 2 + slot
+                if idx < len(arr) and arr[idx] is not None:
+                    fn = arr[idx]
+                    fdef = self.mod.funcs.get(fn)
+                    if fdef and self.sig_compat(fdef, fty) and fn not in cands and self.this_compat(fdef, fty): cands.append(fn)
+            if cands: return cands
+        for fn in sorted(self.address_taken()):
+            fdef = self.mod.funcs.get(fn)
+            if fdef and not fn.startswith('llvm.') and self.sig_compat(fdef, fty): cands.append(fn)
+        return cands
     def byval_args(self, fg, args, code):
         out = []
         for e, t, info in args:
@@ -1385,6 +1559,7 @@ def main():
     ap.add_argument('--override', action='append', default=[])
     ap.add_argument('--no-nsw', dest='nsw', action='store_false', default=True)
     ap.add_argument('--fp-hooks', action='store_true')
+    ap.add_argument('--no-devirt', action='store_true')
     ap.add_argument('--list-external', help='write external (undefined) symbol list here')
     ap.add_argument('--list-functions', help='write names of translated functions here')
     opts = ap.parse_args()
@@ -1395,6 +1570,7 @@ def main():
         if e not in mod.funcs: raise SystemExit('entry %s not in module' % e)
     live = reachable(mod, opts.entry, overrides)
     gen = Gen(mod, opts)
+    gen.live = live; gen.overrides = overrides
     # string globals for label resolution
     for name, g in mod.globals.items():
         if g['init'] is not None:
@@ -1438,13 +1614,14 @@ def main():
         # alias to function: "#define alias target" is enough for direct calls and address-of
         tgt = [x[1] for x in toks if x[0] == 'glob'][0][1:].strip('"')
         alias_defs.append('#define %s %s' % (cg.gname(n), cg.gname(tgt)))
-    tlines, typedefs = cg.emit_types()
+    fwdl, typedefs, tlines = cg.emit_types()
     # gen may register types lazily during function generation; emit_types after everything
     with open(opts.o, 'w') as o:
         o.write('/* generated by ir2c.py from %s -- do not edit */\n' % opts.ll)
         o.write(PRELUDE)
-        o.write('\n'.join(tlines) + '\n')
+        o.write('\n'.join(fwdl) + '\n')
         o.write('\n'.join(typedefs) + '\n')
+        o.write('\n'.join(tlines) + '\n')
         o.write('\n'.join(alias_defs) + '\n')
         o.write('\n'.join(fn_protos) + '\n')
         o.write('\n'.join(gdecl) + '\n')
